@@ -39,12 +39,13 @@ func NewIndexSeed(dstFile string, srcFile string, index Index) (*FileSeed, error
 // if reflinks are not supported. If there is no match, it returns a length of zero
 // and a nil SeedSegment.
 func (s *FileSeed) LongestMatchWith(chunks []IndexChunk) (int, SeedSegment) {
-	s.mu.RLock()
 	// isInvalid can be concurrently read or wrote. Use a mutex to avoid a race
-	if len(chunks) == 0 || len(s.index.Chunks) == 0 || s.isInvalid {
+	s.mu.RLock()
+	isInvalid := s.isInvalid
+	s.mu.RUnlock()
+	if len(chunks) == 0 || len(s.index.Chunks) == 0 || isInvalid {
 		return 0, nil
 	}
-	s.mu.RUnlock()
 	pos, ok := s.pos[chunks[0].ID]
 	if !ok {
 		return 0, nil
